@@ -8,6 +8,8 @@ scenarios:
   klimit     two requests back to back (run under `taskset -c 0` so that
              available_parallelism() == 1 and the ConcurrencyLayer limit is 1)
   control    didOpen then one request
+  dotdot     a.td contains `include "sub/../a.td"` (a self-include spelled through ".."),
+             sub/ exists; didOpen a.td then one request
 Prints ANSWERED or HUNG.
 """
 import json, os, subprocess, sys, tempfile, threading, time
@@ -55,7 +57,32 @@ def main():
     change = {"jsonrpc": "2.0", "method": "textDocument/didChange", "params": {"textDocument": {"uri": uri, "version": 2}, "contentChanges": [{"text": text2}]}}
     sym = lambda i: {"jsonrpc": "2.0", "id": i, "method": "textDocument/documentSymbol", "params": {"textDocument": {"uri": uri}}}
     wait_for = []
-    if scenario == "lockorder":
+    if scenario == "dotdot-buffer":
+        # b.td is open with a buffer that differs from disk; a.td reaches it through ".."
+        os.makedirs(os.path.join(d, "sub"), exist_ok=True)
+        open(os.path.join(d, "b.td"), "w").write("class OnDisk;\n")
+        uri_b = "file://" + os.path.join(d, "b.td")
+        open_b = {"jsonrpc": "2.0", "method": "textDocument/didOpen", "params": {"textDocument": {"uri": uri_b, "languageId": "tablegen", "version": 1, "text": "class InBuffer;\n"}}}
+        ta = 'include "sub/../b.td"\ndef X : InBuffer;\n'
+        open_["params"]["textDocument"]["text"] = ta
+        defn = {"jsonrpc": "2.0", "id": 2, "method": "textDocument/definition", "params": {"textDocument": {"uri": uri}, "position": {"line": 1, "character": 10}}}
+        p.stdin.write(frame(open_b) + frame(open_) + frame(defn)); p.stdin.flush()
+        t0 = time.time()
+        while 2 not in got and time.time() - t0 < timeout:
+            time.sleep(0.05)
+        res = got.get(2, {}).get("result")
+        ok = res is not None
+        print("BUFFER USED (definition of InBuffer found: %s)" % json.dumps(res) if ok else "DISK USED INSTEAD OF THE OPEN BUFFER (definition of InBuffer: null)")
+        p.kill()
+        import shutil; shutil.rmtree(d, ignore_errors=True)
+        return 0 if ok else 1
+    if scenario == "dotdot":
+        os.makedirs(os.path.join(d, "sub"), exist_ok=True)
+        t = 'include "sub/../a.td"\nclass A;\n'
+        open(os.path.join(d, "a.td"), "w").write(t)
+        open_["params"]["textDocument"]["text"] = t
+        p.stdin.write(frame(open_) + frame(sym(2))); p.stdin.flush(); wait_for = [2]
+    elif scenario == "lockorder":
         p.stdin.write(frame(open_) + frame(change) + frame(sym(2))); p.stdin.flush(); wait_for = [2]
     elif scenario == "klimit":
         p.stdin.write(frame(open_) + frame(sym(2)) + frame(sym(3)) + frame(sym(4))); p.stdin.flush(); wait_for = [2, 3, 4]
